@@ -192,7 +192,7 @@ func cmdCheck(args []string) int {
 		return 2
 	}
 
-	defTimeout := 30
+	defTimeout := 120
 	if *tier == "thorough" {
 		defTimeout = 600
 	}
@@ -307,6 +307,7 @@ func cmdCheck(args []string) int {
 
 	// verdicts
 	violations := 0
+	var undecidedCovers []string
 	engineErrors := 0
 	knownHits := 0
 	discharged := 0
@@ -368,6 +369,13 @@ func cmdCheck(args []string) int {
 				printedKnown[key] = true
 			}
 			knownHits++
+			total--
+			continue
+		}
+		if r.Obl.Cover && (r.Status == "timeout" || r.Status == "unknown") {
+			// a reachability probe the solvers could not decide is not evidence of anything: it is
+			// reported as undecided, never as a violation (only an `unsat` cover is a vacuity alarm)
+			undecidedCovers = append(undecidedCovers, name)
 			total--
 			continue
 		}
@@ -478,6 +486,7 @@ func cmdCheck(args []string) int {
 			"vcgen_s":               round3(vcSecs),
 			"solve_wall_s":          round3(solveSecs),
 			"known_findings_hit":    knownHits,
+			"undecided_reachability_probes": undecidedCovers,
 			"deferred_to_thorough":  append(deferred, deferredUnits...),
 			"failed":                failed,
 			"samples":               samples,
